@@ -183,6 +183,7 @@ def extract(prog, lang):
             names.add(r.alias)
         elif not r.helper():
             names.add(r.origin)
+    g.prog = prog
     for n in sorted(names):
         g.callbacks[n] = callback_summary(prog, g, n)
     return g
@@ -276,7 +277,66 @@ def production_value(g, rule, kid_vals):
         return ('atom',) + tuple(flat)
     if cb[0] == 'missing':
         return ('tree', name) + tuple(flat)
+    # a callback that is not one of the generic shapes: interpreted on
+    # exactly this many children (reduce / loops over the children fold
+    # concretely), the built tree is read off the result
+    shape = callback_on(g, name, len(flat))
+    if shape is not None:
+        def fill(t):
+            if t[0] == 'hole':
+                return flat[t[1]]
+            return (t[0],) + tuple(fill(x) for x in t[1:])
+        return fill(shape)
     return ('opaque', name) + tuple(flat)
+
+
+_CB_CACHE = {}
+
+
+def callback_on(g, name, n):
+    """tree built by callback `name` of grammar g from n children, as
+    (ClassName, sub..) over ('hole', i) leaves; None when not understood"""
+    prog = getattr(g, 'prog', None)
+    if prog is None:
+        return None
+    key = (id(g), name, n)
+    if key in _CB_CACHE:
+        return _CB_CACHE[key]
+    out = None
+    try:
+        from .formulas import LANGS
+        f = prog.method(g.transformer, name)
+        al = prog.alphabet(LANGS[g.lang])
+        hooks = FormulaHooks(prog, check_sorts=False)
+        I = Interp(prog, hooks, rule='E5')
+        path = I.new_path()
+        o = path.alloc('inst')
+        path.heap[o.oid].ci = g.transformer
+        for k, v in getattr(g, 'transformer_fields', {}).items():
+            path.heap[o.oid].fields[k] = v
+        kids = [New(al['AtomicProposition'], (Const('$child%d' % i),))
+                for i in range(n)]
+        lst = I._mk_coll('list', kids, path, None)
+        res = I.call_function(FRef(f), [o, lst], [], path, f.node)
+        res = [(p, v) for (p, v) in res if not isinstance(v, Raise)]
+        if len(res) == 1:
+            def conv(v):
+                if isinstance(v, New) and isinstance(v.ci, ClassInfo):
+                    if v.ci.name == 'AtomicProposition' and \
+                            len(v.args) == 1 and \
+                            isinstance(v.args[0], Const) and \
+                            str(v.args[0].v).startswith('$child'):
+                        return ('hole', int(str(v.args[0].v)[6:]))
+                    sub = [conv(a) for a in v.args]
+                    if any(x is None for x in sub):
+                        return None
+                    return (v.ci.name,) + tuple(sub)
+                return None
+            out = conv(res[0][1])
+    except Exception:
+        out = None
+    _CB_CACHE[key] = out
+    return out
 
 
 class Recogniser(object):
